@@ -19,7 +19,7 @@ from ..model import AnalysisError, ClassInfo, FunctionInfo, Model
 from ..paths import Path, PathEnumerator, find_calls
 from ..report import Report
 from ..sym import NONE, Evaluator, Term, Unsupported, atoms_of, show, subterms, sym, t_not
-from .common import (call_arg, call_args, effect_calls, function_paths, is_call_of, lookup_param_ok, loop_of,
+from .common import (call_arg, call_args, effect_calls, function_paths, is_call_of, lookup_or_same, lookup_param_ok, loop_of,
                      node_iterator_domain, norm_stmt, stores, strip_identity_wrappers)
 
 VALUE_WRAPPERS = ("list", "tuple", "dict", "set", "frozenset")
@@ -532,16 +532,7 @@ def check_registry_copy(model: Model, rep: Report, rule: str):
         circ = dict(reg[2]).get("circuit")
         # old reference circuit: self.<registry>.<attribute set from the constructor parameter>
         old_candidates = [("attr", ("attr", self_t, rfield), a) for a in ("reference_circuit",)]
-        ok = False
-        if circ is not None and is_call_of(circ, "get") and lookup_param_ok(circ[1][1], param):
-            a, kw = call_args(circ)
-            dflt = a[1] if len(a) > 1 else kw.get("default")
-            ok = len(a) >= 1 and a[0] in old_candidates and dflt == a[0]
-        elif circ is not None and circ[0] == "ite":
-            c, x, y = circ[1], circ[2], circ[3]
-            if c[0] == "not":
-                c, x, y = c[1], y, x
-            ok = (c[0] == "in" and c[1] in old_candidates and lookup_param_ok(c[2], param) and x == ("sub", c[2], c[1]) and y == c[1])
+        ok = lookup_or_same(ev, p.cond, circ, lambda k: k in old_candidates, lambda t: lookup_param_ok(t, param, p.cond, ev))
         rep.check(ok, rule, construct, f.loc, found=show(circ) if circ else None, required=f"{param}.get(old_circuit, old_circuit)",
                   what="the copied measurement's registry is not re-targeted through the lookup with the old circuit as fallback "
                        "(wrong circuit => acquisition index -1 or indices of another circuit)", detail="retarget")
